@@ -48,6 +48,8 @@ class Run:
         self.notes = []
         for old_, new_ in sorted(getattr(prog, "renames", {}).items()):
             self.notes.append("renamed function recognised by impl + signature: %s is analysed under its pinned name %s" % (new_, old_))
+        for (adt_, old_), new_ in sorted(getattr(prog, "field_renames", {}).items()):
+            self.notes.append("renamed field recognised by struct + type: %s.%s is analysed under its pinned name %s" % (adt_.split("::")[-1], new_, old_))
         self.obligations = 0
         self.discharged = 0
         self.disch_by = Counter()
